@@ -454,20 +454,18 @@ def has_nested_history(root):
 
 
 def has_nested_targetless_pair(root):
-    """two transitions with nested sources of which at least one has no target (so that their exit sets cannot
-    intersect), separated by a parallel state: the Recommendation may take both (they serve different regions),
-    the transpilers' conflict relation declares transitions with nested sources conflicting"""
+    """two transitions with nested sources of which at least one has no target (so that their exit sets cannot intersect), in a
+    chart with a parallel state: the Recommendation may take both (they serve different regions), or take the outer one although
+    the inner one was pre-empted by a transition of another region; the transpilers' selection - every transition is a candidate,
+    pre-emption by the static conflict relation, which declares transitions with nested sources conflicting - differs.
+    (A pre-filter only: a deviation is accepted as the recorded finding only if the run equals Appendix D with that selection.)"""
     root.link()
+    if not any(n.kind == "parallel" for n in root.walk()): return False
     for s2 in root.walk():
         if not s2.trans: continue
         for s1 in s2.descendants():
             if s1 is s2 or not s1.trans: continue
-            if not any(t.targets is None for t in s1.trans + s2.trans): continue
-            p = s1.parent
-            while p is not None:
-                if p.kind == "parallel": return True
-                if p is s2: break
-                p = p.parent
+            if any(t.targets is None for t in s1.trans + s2.trans): return True
     return False
 
 
